@@ -189,8 +189,11 @@ impl<'a> SourceParser<'a> {
       if op != TokenOp::Comma {
         break;
       }
-      let additional_comments = self.consume();
+      let mut additional_comments = self.consume();
       if self.peek().1 == TokenContent::Operator(end_token) {
+        // Trailing comma: the comments written before it stay in front of the closing token.
+        additional_comments.append(&mut self.pending_comments);
+        self.pending_comments = additional_comments;
         return collector;
       }
       collector.push(parser(self, additional_comments));
@@ -1306,10 +1309,15 @@ mod expression_parser {
                   parser.peek(),
                   Token(_, TokenContent::Operator(TokenOp::RightParenthesis))
                 ) {
+                  // Trailing comma: the comments written before it stay in front of the `)`.
+                  let mut comments = id_comments;
+                  comments.append(&mut parser.pending_comments);
+                  parser.pending_comments = comments;
                   break;
                 }
                 // Non-id expression in tuple: (a, b, 42, ...)
-                let first_remaining = parse_expression(parser);
+                let first_remaining =
+                  parse_expression_with_additional_preceding_comments(parser, id_comments);
                 let tuple_elements: Vec<expr::E<()>> = parameters_or_tuple_elements_cover
                   .into_iter()
                   .map(|name| {
@@ -1656,8 +1664,11 @@ mod expression_parser {
     mut expressions: Vec<expr::E<()>>,
   ) -> expr::E<()> {
     while let Token(_, TokenContent::Operator(TokenOp::Comma)) = parser.peek() {
-      let comments = parser.consume();
+      let mut comments = parser.consume();
       if matches!(parser.peek(), Token(_, TokenContent::Operator(TokenOp::RightParenthesis))) {
+        // Trailing comma: the comments written before it stay in front of the `)`.
+        comments.append(&mut parser.pending_comments);
+        parser.pending_comments = comments;
         break;
       }
       expressions.push(parse_expression_with_additional_preceding_comments(parser, comments));
